@@ -99,6 +99,36 @@ func checkWindowSearchWalksDown(c *an.Ctx, id string, find *ssa.Function, up *ss
 		okBottom := ff.ProveGE(read.Block(), ft.Affine(read.Call.Args[1]), an.Var("Height(p2)", true), 1)
 		c.Check(okTop && okBottom, id, "walk-down-reads-only-stored-heights", "the downward walk asks the store only for heights above the old tail and not above the store's own height (a read below the tail fails, a read above the height waits for a header nobody appends)", find, read, "", fs)
 	}
+	// the walk may go all the way down to the header right above the old tail (the old tail itself is
+	// known to be older than the window): a lower guard stricter than `> oldTail.Height()+1` stops it one
+	// header early and that header, inside the window, is pruned
+	an.Instrs(find, func(in ssa.Instruction) {
+		ifi, isIf := in.(*ssa.If)
+		if !isIf {
+			return
+		}
+		b, isBin := ifi.Cond.(*ssa.BinOp)
+		if !isBin {
+			return
+		}
+		var bound ssa.Value
+		slack := int64(0)
+		switch {
+		case b.X == ssa.Value(down) && b.Op == token.GTR:
+			bound = b.Y
+		case b.X == ssa.Value(down) && b.Op == token.GEQ:
+			bound, slack = b.Y, 1
+		case b.Y == ssa.Value(down) && b.Op == token.LSS:
+			bound = b.X
+		case b.Y == ssa.Value(down) && b.Op == token.LEQ:
+			bound, slack = b.X, 1
+		default:
+			return
+		}
+		// bound ≤ oldTail.Height()+1 (+1 more for a non-strict comparison)
+		okLow := ff.ProveGE(ifi.Block(), an.Var("Height(p2)", true), ft.Affine(bound), -1-slack)
+		c.Check(okLow, id, "walk-down-reaches-above-old-tail", "the downward walk is not stopped before the header right above the old tail (a stricter lower guard prunes a header inside the window)", find, ifi, "lower guard "+ft.Of(bound), ff.AtInstr(ifi))
+	})
 	c.Min(id, "downward steps of the window search", nStep, 1)
 	c.Check(fromUp, id, "walk-down-starts-where-walk-up-ended", "the downward walk starts from the height the upward walk ended with", find, down, "", nil)
 	// what is returned after the search is the downward walk's result
